@@ -210,7 +210,15 @@ def check_case(case) -> Result:
                 from pbt.oracles import krylov_model
 
                 est = krylov_model.expokit_estimate(A, v, res.iteration_count)
-                kind += ":estimate_uses_previous_vector_norm" if est >= tol else ":other"
+                if est >= tol:
+                    kind += ":estimate_uses_previous_vector_norm"
+                else:
+                    # even the reference estimate accepts this order.  If what was returned IS the order-m Krylov
+                    # approximant (so the construction is right) the deviation is the estimator's own: Expokit's
+                    # local error estimate is not a bound
+                    approx = krylov_model.krylov_approximant(A, v, res.iteration_count)
+                    same = np.linalg.norm(res.result.numpy() - approx) <= max(1e-9 * vn, 0.01 * err)
+                    kind += ":reference_estimate_underestimates_too" if same else ":other"
             r.fail(kind,
                    f"|res-exact|={err:.3e} > 10*tol*|v|+floor={bound:.3e} (tol={tol:g}, |v|={vn:g}, dim={dim}, |A|={case['norm']:g}, "
                    f"iters={res.iteration_count}, hermitian={herm_flag})")
